@@ -2,6 +2,9 @@ package main
 
 import (
 	"bufio"
+
+	"github.com/zalf-rpm/Hermes2Go/hermes"
+
 	"crypto/sha256"
 	"encoding/hex"
 	"encoding/json"
@@ -30,6 +33,7 @@ type batchLine struct {
 	Fail    string   // "" = valid line, else the error class it is built to fail with
 	ErrLike string   // substring expected in the reported error
 	DupOf   int      // >=0: exact duplicate (same result folder) of that line index
+	Marker  bool     // the run sets the numerical-instability marker (a per-run text in the result files)
 }
 
 func (l *batchLine) text(resRoot string) string {
@@ -62,6 +66,16 @@ func genBatchProjects(root string, seed uint64, nProj int, tagProp string) ([]*S
 			p.AutoProb = 1
 		}
 		sc := genWithProfile(tagProp, seed, i, r, p)
+		unstable := false
+		if i == nProj-1 {
+			// one project whose nitrate transport goes numerically unstable: the run then writes its instability marker (a text
+			// that belongs to the run) into the result files
+			if u := findUnstableScenario(tagProp, seed, i); u != nil {
+				sc = u
+				unstable = true
+			}
+		}
+		sc.YearlyCols = append(sc.YearlyCols, OutCol{Format: "%s", Var: "C1NotStableErr", Width: 14})
 		sc.Project = fmt.Sprintf("p%02d", i)
 		sc.Weather.Folder = fmt.Sprintf("wx%02d", i)
 		sc.ResultFormat = 1
@@ -112,10 +126,41 @@ func genBatchProjects(root string, seed uint64, nProj int, tagProp string) ([]*S
 			}
 		}
 		scs = append(scs, sc)
-		lines = append(lines, batchLine{ID: fmt.Sprintf("L%02d", i), Project: sc.Project, Tokens: toks, DupOf: -1})
+		lines = append(lines, batchLine{ID: fmt.Sprintf("L%02d", i), Project: sc.Project, Tokens: toks, DupOf: -1, Marker: unstable})
 	}
 	os.RemoveAll(filepath.Join(root, "res_unused"))
 	return scs, lines, nil
+}
+
+// monUnstable aborts the run as soon as the instability marker is set
+type monUnstable struct{ found bool }
+
+func (m *monUnstable) Event(ev *hermes.VerifEvent, rc *RunCtx) {
+	if ev.Site == "day_end" && ev.G.C1NotStableErr != "" {
+		m.found = true
+		panic(abortRun{"instability marker set"})
+	}
+}
+func (m *monUnstable) Finish(rc *RunCtx) {}
+
+// findUnstableScenario searches the generator's hostile corner (stones, heavy rain, shallow groundwater) for a scenario whose
+// run sets the instability marker; nil if none of the candidates does.
+func findUnstableScenario(tagProp string, seed uint64, idx int) *Scenario {
+	for k := 0; k < 60; k++ {
+		r := NewRng(mix(mix(seed, uint64(idx)), uint64(9000+k)))
+		p := defaultProfile()
+		p.Inject, p.Measurement, p.NoneValues = 0, 0, 0
+		p.Years = [2]int{1, 2}
+		p.HeavyRain, p.Stones, p.ShallowGW, p.Drain = 1, 1, 0.8, 0.5
+		p.MinLayers = 4
+		sc := genWithProfile(tagProp, seed, idx*1000+k, r, p)
+		m := &monUnstable{}
+		runScenario(sc, []Monitor{m}, "")
+		if m.found {
+			return sc
+		}
+	}
+	return nil
 }
 
 type batchRunResult struct {
